@@ -59,7 +59,9 @@ def main(tier):
         for c in a:
             al.update(FOLD.get(c, [c]))
         al.update([5, 7, 12, 13, 14])
-        if r["o"]["nul"]:
+        # NUL is part of every alphabet: rg bans it from patterns (ban_byte) but lines may hold it; the size of the
+        # product stays manageable by adding it for every other pattern only (and whenever it is the terminator)
+        if r["o"]["nul"] or i % 2 == 0:
             al.add(15)
         ok = bool(o["ok"]) and o.get("hir") is not None and o.get("lits") != "unrepresentable"
         if not o["ok"]:
